@@ -9,11 +9,11 @@ PLAN = {
     "C05": ["K05a", "L05", "L05b"],
     "C06": ["K06", "L06"],
     "C07": ["L07"],
-    "C08": ["K14b", "L08"],
-    "C09": ["L09"],
+    "C08": ["K08b", "K13b", "K14b", "L08"],
+    "C09": ["K08b", "L09"],
     "C10": ["L10"],
     "C17": ["K17", "K17b", "K17c", "L17"],
-    "C18": ["K18a", "K18b", "L18"],
+    "C18": ["K13b", "K18a", "K18b", "L18"],
     "C19": ["K19b", "K19c", "L19"],
     "C11": ["K11a", "K11b", "L11"],
     "C12": ["K12a", "K12b", "K12d", "K12e"],
